@@ -261,9 +261,6 @@ func (vt *Model) update(seq ansi.Sequence) {
 			if len(seq.Intermediate) > 0 {
 				return
 			}
-			if len(seq.Parameters) > 0 {
-				return
-			}
 			// Write the raw sequence to the writer
 			buf := bytes.NewBuffer(nil)
 			// DCS
@@ -271,7 +268,7 @@ func (vt *Model) update(seq ansi.Sequence) {
 			// Params
 			for i, p := range seq.Parameters {
 				buf.WriteString(strconv.Itoa(p))
-				if i <= len(seq.Parameters)-1 {
+				if i < len(seq.Parameters)-1 {
 					buf.WriteByte(';')
 				}
 			}
